@@ -127,7 +127,8 @@ CLAIMED.update({
                  'markers, each optionally preceded by a bond symbol — any length, any number of rings, nested or interleaved — '
                  'reads to exactly its denotation: the chain plus one ring bond per closed marker with the order written in '
                  'front of the opening marker, SyntaxError when a ring bond duplicates a bond or a marker stays open (ring scan '
-                 'lemma scan_marks over the marker text incl. the %nn state machine, stepNode_ring, fold_rtail). Rings inside '
+                 'lemma scan_marks over the marker text incl. the %nn state machine, stepNode_ring, fold_rtail). C04_read_bare_chain: '
+                 'the same chains without surrounding braces, as the fragment reader passes them. Rings inside '
                  'branches and annotations inside nodes: ring parity law, documented examples by kernel evaluation; their '
                  'unbounded statement is validated by correspondence of the faithful model with the code on grammar ASTs plus an '
                  'independent denotation oracle (partial).'),
@@ -171,8 +172,15 @@ CLAIMED.update({
         'text': ('Lean 4: format_bonding (translated from the source each run) followed by the fragment reader returns every '
                  'descriptor list unchanged — any length, four kinds, any label, orders 0-4 — on the atom it was written '
                  'after, clean text without the descriptors\' symbols; one-node fragments are written as text + descriptors. '
-                 'Graph part of coarse fragments = C07; atomistic atom texts are pysmiles\' (P0): validated by correspondence '
-                 '+ oracle on generated fragment sets and complete strings (partial).'),
+                 'Coarse path fragments end to end (C08_path_fragment): for every path of alphanumerically named beads, any '
+                 'bond order 0-4 between neighbours, every bead carrying any list of descriptors, the text the writer model '
+                 'emits (writeGraph_beads, by induction over the writer\'s stack machine) is read by the coarse fragment '
+                 'reader model readFragCG (scanner, then graph reader on the cleaned text: C13_tokens with bracket-atom tokens, '
+                 'C04_read_bare_chain) to the same path graph and the dictionary holding every descriptor under its bead, in '
+                 'order. Branched/cyclic coarse fragments (graph part = C07) and atomistic fragments (atom texts are '
+                 'pysmiles\', P0): validated by correspondence (writer model, scanner model, readFragCG against '
+                 'strip_bonding_descriptors + read_fragment_cgsmiles) + oracle on generated fragment sets and complete strings '
+                 '(partial).'),
         'note': READ_NOTE + 'pysmiles format_atom/read_smiles are external.',
         'design': '§7 C08',
     },
@@ -182,14 +190,18 @@ CLAIMED.update({
                  'bracket), strip returns exactly the atoms as clean text and a dictionary that holds, per atom index, exactly '
                  'the descriptors written after that atom in order with their order digit, no marks, no annotations '
                  '(C13_chain, with exact loop-iteration accounting); the single-atom statement with arbitrary following text '
-                 '(C13_descriptors_after_atom); C13_tokens: every stream of plain atoms, bond symbols, ring-closure runs (digits '
-                 'and %nn, with or without ring bond symbol), balanced parentheses at any nesting, and descriptors written after '
-                 'an atom, after that atom\'s ring digits or after another descriptor is separated exactly — clean text = text '
-                 'without descriptors, every descriptor under the index of the atom it was written after (atoms counted in order '
-                 'of appearance, also inside branches) — by simulation of the loop, one iteration per token (stripAux_tokens, '
-                 'fold_fields); test-suite strings by kernel evaluation. Bracket atoms with annotations, two-letter elements, '
-                 'slash marks, descriptors after a branch closing: validated by exact correspondence on generated and mutated '
-                 'fragment texts + the builder\'s expected 4-tuple (partial).'),
+                 '(C13_descriptors_after_atom); C13_tokens: every stream of plain atoms, two-letter elements, bracket atoms with or without annotations, bond '
+                 'symbols, ring-closure runs (digits and %nn, with or without ring bond symbol), balanced parentheses at any '
+                 'nesting, E/Z marks, and descriptors written after an atom, after that atom\'s ring digits, after another '
+                 'descriptor or after a closing parenthesis is separated exactly — clean text = text without descriptors, marks '
+                 'and annotations; every descriptor under the index of the atom it was written after (atoms counted in order of '
+                 'appearance, also inside branches; after a closing parenthesis the atom the branch hangs on: specDict over the '
+                 'position Pos); every mark on the atoms on both of its sides (specEz); for every bracket atom what the '
+                 'fragment dialect makes of its annotation text (specAttrs/annoOf) — by simulation of the loop, one iteration '
+                 'per token (stripAux_tokens, fold_fields; step lemmas atom2_step, node_step, anode_step, slash_step, ring_step); '
+                 'test-suite strings by kernel evaluation. Leading descriptors (written before the first atom) and malformed '
+                 'texts: validated by exact correspondence on generated and mutated fragment texts + the builder\'s expected '
+                 '4-tuple (partial).'),
         'note': READ_NOTE,
         'design': '§7 C13',
     },
